@@ -21,6 +21,24 @@ pub trait PType: Prefix + Clone + PartialEq + Debug + Send + Sync + 'static {
     fn mk(addr: u128, len: u8) -> Self;
     /// left-aligned raw address as stored (including host bits) and the length.
     fn raw(&self) -> GK;
+    /// serialize + deserialize a map through serde_json, for the key types that support it
+    fn serde_map_roundtrip(_m: &prefix_trie::PrefixMap<Self, u32>) -> Option<Result<prefix_trie::PrefixMap<Self, u32>, String>> {
+        None
+    }
+    fn serde_set_roundtrip(_s: &prefix_trie::PrefixSet<Self>) -> Option<Result<prefix_trie::PrefixSet<Self>, String>> {
+        None
+    }
+}
+
+macro_rules! serde_rt {
+    () => {
+        fn serde_map_roundtrip(m: &prefix_trie::PrefixMap<Self, u32>) -> Option<Result<prefix_trie::PrefixMap<Self, u32>, String>> {
+            Some(serde_json::to_string(m).map_err(|e| e.to_string()).and_then(|s| serde_json::from_str(&s).map_err(|e| format!("{e} in {s}"))))
+        }
+        fn serde_set_roundtrip(m: &prefix_trie::PrefixSet<Self>) -> Option<Result<prefix_trie::PrefixSet<Self>, String>> {
+            Some(serde_json::to_string(m).map_err(|e| e.to_string()).and_then(|s| serde_json::from_str(&s).map_err(|e| format!("{e} in {s}"))))
+        }
+    };
 }
 
 macro_rules! tuple_ptype {
@@ -79,6 +97,7 @@ impl PType for ipnet::Ipv4Net {
     fn raw(&self) -> GK {
         (from_v4(self.addr()), self.prefix_len())
     }
+    serde_rt!();
 }
 impl PType for ipnet::Ipv6Net {
     const NAME: &'static str = "Ipv6Net";
@@ -90,6 +109,7 @@ impl PType for ipnet::Ipv6Net {
     fn raw(&self) -> GK {
         (from_v6(self.addr()), self.prefix_len())
     }
+    serde_rt!();
 }
 impl PType for ipnetwork::Ipv4Network {
     const NAME: &'static str = "Ipv4Network";
